@@ -32,14 +32,33 @@ pub struct DiskScenario {
     pub context: SCtx,
     /// 1 in n UTF-8 variants goes through the file path too (non-UTF-8 ones always do)
     pub via_file_every: usize,
+    /// non-empty: this source has a known crash shape (finding F6: long left-deep chain) and is
+    /// only ever registered in a sacrificial child process
+    #[serde(default)]
+    pub crash_shape: String,
+    #[serde(default)]
+    pub sacrificial: bool,
 }
 
 /// Deep-nesting / huge-literal sources: the parser's limits, not the stack, must stop them.
-fn stress_source(rng: &Rng, d: &Delims) -> String {
+/// `depth` up to 90 goes through the full fault closure; "deep" scenarios use 100..20000 levels
+/// with a handful of variants (cheap while the limits work: the parser gives up at level ~40).
+pub const NEST_KINDS: usize = 24;
+pub fn nest_source(kind: usize, depth: usize, rng: &Rng, d: &Delims) -> String {
     let tag = |s: &str| format!("{} {} {}", d.bs, s, d.be);
     let var = |s: &str| format!("{} {} {}", d.vs, d.sanitize_inner(s), d.ve);
-    let depth = rng.range(1, 90);
-    match rng.below(12) {
+    let wrap = |open: &str, core: &str, close: &str| {
+        let mut e = String::with_capacity(depth * (open.len() + close.len()) + core.len());
+        for _ in 0..depth {
+            e.push_str(open);
+        }
+        e.push_str(core);
+        for _ in 0..depth {
+            e.push_str(close);
+        }
+        e
+    };
+    match kind % NEST_KINDS {
         0 => {
             let mut s = String::new();
             for _ in 0..depth {
@@ -61,31 +80,75 @@ fn stress_source(rng: &Rng, d: &Delims) -> String {
             }
             s
         }
-        2 => var(&format!("{}1{}", "(".repeat(depth), ")".repeat(depth))),
-        3 => var(&format!("{}1{}", "[".repeat(depth.min(12)), "]".repeat(depth.min(12)))),
-        4 => var(&format!("x{}", "[0]".repeat(depth.min(20)))),
-        5 => var(&format!("x{}", "[y".repeat(depth.min(12)) + &"]".repeat(depth.min(12)))),
-        6 => var(&format!("{}1", "not ".repeat(depth.min(6)))),
-        7 => var(&format!("{}1", "- ".repeat(depth.min(6)))),
+        2 => var(&wrap("(", "1", ")")),
+        3 => var(&wrap("[", "1", "]")),
+        // (a flat chain, not nesting: long ones are finding F6 and live in chain_source)
+        4 => var(&format!("x{}", "[0]".repeat(depth.min(90)))),
+        5 => var(&format!("x{}", wrap("[y", "", "]"))),
+        6 => var(&format!("{}1", "not ".repeat(depth))),
+        7 => var(&format!("{}1", "- ".repeat(depth))),
         8 => var(&"9".repeat(rng.range(1, 60))),
         9 => var(&format!("{}.{}", "9".repeat(rng.range(1, 40)), "9".repeat(rng.range(1, 40)))),
-        10 => {
-            let mut e = "1".to_string();
-            for _ in 0..depth {
-                e = format!("{} if true else ({})", 2, e);
-            }
-            var(&e)
-        }
-        _ => {
+        10 => var(&wrap("2 if true else (", "1", ")")),
+        11 => {
             let mut s = String::new();
-            for i in 0..depth.min(45) {
+            for i in 0..depth {
                 s.push_str(&tag(&format!("block b{}", i)));
             }
-            for _ in 0..depth.min(45) {
+            for _ in 0..depth {
                 s.push_str(&tag("endblock"));
             }
             s
         }
+        // list comprehensions nested in target / condition / element position
+        12 => var(&wrap("[x for x in ", "[1]", "]")),
+        13 => var(&wrap("[x for x in [1] if ", "true", "]")),
+        14 => var(&wrap("[", "1", " for x in [1]]")),
+        // map literals, function / filter / test arguments, component attributes
+        15 => var(&wrap("{\"a\": ", "1", "}")),
+        16 => var(&wrap("range(end=", "1", ")")),
+        17 => var(&wrap("1 | default(value=", "1", ")")),
+        18 => var(&wrap("1 is divisible_by(divisor=", "1", ")")),
+        19 => var(&wrap("x[", "0", "]")),
+        20 => var(&wrap("x[", "0", ":]")),
+        21 => {
+            let mut s = String::new();
+            for _ in 0..depth {
+                s.push_str(&tag("filter upper"));
+            }
+            s.push('x');
+            for _ in 0..depth {
+                s.push_str(&tag("endfilter"));
+            }
+            s
+        }
+        22 => {
+            let mut s = String::new();
+            for i in 0..depth {
+                s.push_str(&tag(&format!("set v{}", i)));
+            }
+            s.push('x');
+            for _ in 0..depth {
+                s.push_str(&tag("endset"));
+            }
+            s
+        }
+        _ => var(&wrap("{...", "{}", "}")),
+    }
+}
+
+/// Long *flat* chains (left-deep ASTs): no nesting limit applies to them.
+pub fn chain_source(kind: usize, n: usize, d: &Delims) -> String {
+    let tag = |s: &str| format!("{} {} {}", d.bs, s, d.be);
+    let var = |s: &str| format!("{} {} {}", d.vs, s, d.ve);
+    match kind % 7 {
+        0 => var(&format!("1{}", " + 1".repeat(n))),
+        1 => var(&format!("a{}", ".b".repeat(n))),
+        2 => var(&format!("a{}", " | upper".repeat(n))),
+        3 => format!("{}x{}{}", tag("if a"), format!("{}y", tag("elif a")).repeat(n), tag("endif")),
+        4 => var(&format!("'a'{}", " ~ 'a'".repeat(n))),
+        5 => var(&format!("a{}", " and a".repeat(n))),
+        _ => var(&format!("a{}", "[0]".repeat(n))),
     }
 }
 
@@ -107,13 +170,29 @@ pub fn generate(seed: u64, tier: &str, _property: &str) -> DiskScenario {
     }
     let mut templates = g.world.templates.clone();
     let (file_name, mut source) = templates.pop().unwrap();
-    if rng.chance(1, 4) {
-        source = stress_source(&rng, &delims);
+    let mut crash_shape = String::new();
+    let mut few_variants = false;
+    let mode = rng.below(40);
+    if mode < 8 {
+        source = nest_source(rng.below(NEST_KINDS), rng.range(1, 90), &rng, &delims);
+    } else if mode < 12 {
+        // deep: way beyond every limit; only a handful of variants
+        let depth = rng.pick(&[100usize, 300, 1000, 3000, 8000, 20000]);
+        source = nest_source(rng.below(NEST_KINDS), depth, &rng, &delims);
+        few_variants = true;
+    } else if mode < 14 {
+        // flat chains below the length where the unmodified engine overflows (finding F6)
+        source = chain_source(rng.below(7), rng.range(5, 300), &delims);
+        few_variants = true;
+    } else if mode == 14 {
+        source = chain_source(rng.below(7), rng.range(4000, 9000), &delims);
+        crash_shape = "left-deep-chain".to_string();
+        few_variants = true;
     } else if rng.chance(1, 3) {
         // multi-byte characters right next to delimiters
         source = format!("\u{e9}{}\u{1F389}{} \"\u{e9}\u{4e2d}\" {}\u{ae}\u{a9}{}\u{e9}{}", source, delims.vs, delims.ve, delims.cs, delims.ce);
     }
-    if source.len() > 700 {
+    if source.len() > 700 && !few_variants {
         let mut cut = 700;
         while !source.is_char_boundary(cut) {
             cut -= 1;
@@ -125,10 +204,26 @@ pub fn generate(seed: u64, tier: &str, _property: &str) -> DiskScenario {
         hash_base: rng.next_u64(),
         base: templates,
         file_name,
-        source,
-        variants: Variants::Tier { thorough: tier == "thorough", seed: rng.next_u64() },
+        source: source.clone(),
+        variants: if few_variants {
+            // the original plus cuts at a few seeded offsets
+            let b = source.as_bytes();
+            let mut v = vec![("original".to_string(), crate::sval::hex(b))];
+            for _ in 0..6 {
+                let mut n = rng.below(b.len().max(1));
+                while !source.is_char_boundary(n) {
+                    n -= 1;
+                }
+                v.push(("truncation".to_string(), crate::sval::hex(&b[..n])));
+            }
+            Variants::Explicit(v)
+        } else {
+            Variants::Tier { thorough: tier == "thorough", seed: rng.next_u64() }
+        },
         context: gen_context(&rng, 0),
         via_file_every: 8,
+        crash_shape,
+        sacrificial: false,
     }
 }
 
@@ -205,6 +300,14 @@ fn light_fp(t: &Tera, ctx: &Context) -> Result<u64, String> {
 pub fn execute(sc: &DiskScenario, stats: &mut Stats) -> Outcome {
     let mut out = Outcome::default();
     let mut log = Fnv::new();
+    if !sc.crash_shape.is_empty() && !sc.sacrificial {
+        stats.inc("probe_f6_shape_source_generated");
+        let mut d = sc.clone();
+        d.sacrificial = true;
+        out.deferred.push(serde_json::to_value(crate::Scn::Disk(d)).unwrap());
+        out.fingerprint = crate::rng::fnv1a(sc.source.as_bytes());
+        return out;
+    }
     ahash::sim::reset(Mode::PerInstance, sc.hash_base);
     let mut base = new_tera(&sc.config);
     stats.inc("corpus_files");
